@@ -9,6 +9,7 @@ THEOREMS = [
     ("EG.props.C09", "C09_release_bound"),
     ("EG.props.C09", "C09_reject_only_when_horizon_full"),
     ("EG.props.C09", "C09_release_period_is_slot_block"),
+    ("EG.props.C09", "C09_model_passes_checker"),
     ("EG.props.C09", "C09_mqtt_single"),
     ("EG.props.C09", "C09_mqtt_multi"),
     ("EG.props.C09", "C09_unmatched_url_unlimited"),
@@ -18,6 +19,9 @@ THEOREMS = [
 HARNESSES = [
     dict(name="rl", pkg="pkg/util/ratelimiter", files=["harness/ratelimiter/zz_verif_c09_test.go"],
          run="TestVerifC09", groups=["rl", "multi"], timeout=300, share=0.7),
+    dict(name="conc", pkg="pkg/util/ratelimiter",
+         files=["harness/ratelimiter/zz_verif_c09_test.go", "harness/ratelimiter/zz_verif_c09_conc_test.go"],
+         run="TestVerifC09Conc", groups=["rl"], timeout=600, share=0.01, thorough_only=True, race=True),
     dict(name="flt", pkg="pkg/filters/ratelimiter", files=["harness/filters_ratelimiter/zz_verif_c09_flt_test.go"],
          run="TestVerifC09Filter", groups=["flt"], timeout=300, share=0.15,
          extra_overlay={"pkg/util/ratelimiter/zz_verif_hook.go": "harness/ratelimiter/zz_verif_hook.go"}),
